@@ -15,6 +15,8 @@
 #include <AIToolbox/Factored/Utils/FilterMap.hpp>
 #include <AIToolbox/Seeder.hpp>
 #include <algorithm>
+#include <utility>
+#include <AIToolbox/Utils/IndexMap.hpp>
 #include <sys/wait.h>
 #include <unistd.h>
 #include <fcntl.h>
@@ -263,6 +265,68 @@ static void emitIterable(Line & l, R && r) {
     l.nats(ids); l.nats(items);
 }
 
+
+// ---- IndexMap iterator walk: every way the iterator API offers to reach the k-th entry of a filter result must reach the
+// same entry.  `C20 imi <kind> <ids> <container> | fwd post arrow plus sub pluseq rev revpost minus minuseq dist total cmpWrong`
+// (each a list of item values; `minus` is dereferenced only when the distance check says it is inside the range).
+template <class It>
+static void walkIterators(Line & l, It b, It e, long n) {
+    std::vector<size_t> fwd, post, arrow, plus, sub, pluseq, rev, revpost, minus, minuseq, dist;
+    for (auto it = b; it != e; ++it) { fwd.push_back(*it); arrow.push_back(*(it.operator->())); }
+    for (auto it = b; it != e; ) { auto old = it++; post.push_back(*old); }
+    for (long k = 0; k < n; ++k) { plus.push_back(*(b + k)); sub.push_back(b[k]); auto it = b; it += k; pluseq.push_back(*it); }
+    for (auto it = e; it != b; ) { --it; rev.push_back(*it); }
+    for (auto it = e; it != b; ) { it--; revpost.push_back(*it); }
+    for (long k = 1; k <= n; ++k) {
+        auto m = e - k; const long d = (long)(e - m);
+        dist.push_back((size_t)(d < 0 ? 777777 : d));
+        minus.push_back(d == k ? (size_t)*m : (size_t)888888);
+        auto it = e; it -= k; minuseq.push_back(*it);
+    }
+    size_t cmpWrong = 0;
+    for (long i = 0; i <= n; ++i) for (long j = 0; j <= n; ++j) {
+        auto x = b + i, y = b + j;
+        cmpWrong += ((x < y) != (i < j)) + ((x > y) != (i > j)) + ((x <= y) != (i <= j)) + ((x >= y) != (i >= j)) + ((x == y) != (i == j)) + ((x != y) != (i != j));
+        cmpWrong += ((long)(y - x) != j - i);
+    }
+    l.nats(fwd); l.nats(post); l.nats(arrow); l.nats(plus); l.nats(sub); l.nats(pluseq); l.nats(rev); l.nats(revpost);
+    l.nats(minus); l.nats(minuseq); l.nats(dist); l << (size_t)(e - b) << cmpWrong;
+}
+
+template <class R, class C>
+static void emitIterWalk(const char * kind, R && r, const C & cont) {
+    std::vector<size_t> ids;
+    for (auto it = r.begin(); it != r.end(); ++it) ids.push_back(it.toContainerId());
+    {
+        Line l; l << "C20" << "imi" << kind; l.nats(ids); l.nats(cont); l << "|";
+        walkIterators(l, r.begin(), r.end(), (long)ids.size()); l.emit();
+    }
+    {
+        Line l; l << "C20" << "imi" << (std::string(kind) + "_const"); l.nats(ids); l.nats(cont); l << "|";
+        walkIterators(l, std::as_const(r).begin(), std::as_const(r).end(), (long)ids.size()); l.emit();
+    }
+    std::printf("#stat imi_len_%s 1\n", ids.size() == 0 ? "0" : ids.size() == 1 ? "1" : ids.size() <= 4 ? "2_4" : "5plus");
+    bool contiguous = true;
+    for (size_t i = 1; i < ids.size(); ++i) contiguous = contiguous && ids[i] == ids[i - 1] + 1;
+    std::printf("#stat imi_ids_%s 1\n", contiguous ? "contiguous" : "with_gaps");
+}
+
+// IndexMap used directly (both constructors) over a vector with arbitrary, possibly repeated and unsorted ids
+static void indexmap_case(Rng & rng) {
+    const size_t N = (size_t)rng.range(1, 12);
+    std::vector<size_t> cont(N);
+    for (size_t i = 0; i < N; ++i) cont[i] = 500 + 13 * i + rng.below(7);
+    std::vector<size_t> ids((size_t)rng.below(9));
+    for (auto & x : ids) x = rng.below(N);
+    if (rng.coin()) std::sort(ids.begin(), ids.end());
+    AIToolbox::IndexMap<std::vector<size_t>, std::vector<size_t>> own(ids, cont);
+    emitIterWalk("own", own, cont);
+    AIToolbox::IndexMap<std::vector<size_t>*, std::vector<size_t>> ref(&ids, cont);
+    emitIterWalk("ref", ref, cont);
+    AIToolbox::IndexMap<std::vector<size_t>, const std::vector<size_t>> cown(ids, cont);
+    emitIterWalk("cown", cown, cont);
+}
+
 static void fmap_trie_case(Rng & rng, const F::Factors & sp, int maxOps) {
     using FM = F::FilterMap<size_t, F::Trie>;
     FM fm(sp);
@@ -283,6 +347,10 @@ static void fmap_trie_case(Rng & rng, const F::Factors & sp, int maxOps) {
             if (q.first.empty() && risky && g_allIdsCrashes) { std::printf("#stat avoided_allids 1\n"); continue; }
             l << "flt"; pfTok(l, q);
             if (rng.coin()) emitIterable<FM>(l, fm.filter(q)); else emitIterable<FM>(l, static_cast<const FM &>(fm).filter(q));
+            if (rng.below(3) == 0) {
+                std::vector<size_t> cont(fm.begin(), fm.end());
+                if (rng.coin()) emitIterWalk("fm", fm.filter(q), cont); else emitIterWalk("cfm", static_cast<const FM &>(fm).filter(q), cont);
+            }
         } else if (r < 90) {
             size_t off = rng.below(sp.size());
             size_t len = 1 + rng.below(sp.size() - off);
@@ -385,7 +453,7 @@ void verif::verif_case(Rng & rng, long idx, const std::string & tier) {
         ctor_case();
         return;
     }
-    if (idx == 1) { fixed_cases(); return; }
+    if (idx == 1) { fixed_cases(); for (int i = 0; i < 40; ++i) indexmap_case(rng); return; }
     long k = idx - kFixed;
     const int maxOps = tier == "thorough" ? 400 : 60;
     F::Factors rsp;
